@@ -121,7 +121,72 @@ func ctxOf(r *vh.Rand) string {
 	case 2:
 		exp = []int{0, 20, 21, 43, 63, 64, 255}[r.Intn(7)]
 	}
+	if r.Chance(35) {
+		// no SetAckDelayExponent before this parse: the case's parser of that flag set keeps its exponent
+		return fmt.Sprintf("%s %s =", lvl, flags)
+	}
 	return fmt.Sprintf("%s %s %d", lvl, flags, exp)
+}
+
+func expOf(r *vh.Rand) int {
+	switch r.Pick(25, 60, 15) {
+	case 1:
+		return r.Intn(21)
+	case 2:
+		return []int{0, 20, 21, 43, 63, 64, 255}[r.Intn(7)]
+	}
+	return 3
+}
+
+// ackBytes is a small valid ACK / ACK_ECN frame with a non-zero ACK Delay.
+func ackBytes(r *vh.Rand) []byte {
+	ecn := r.Chance(30)
+	b := []byte{0x02}
+	if ecn {
+		b[0] = 0x03
+	}
+	largest := 2 + small(r)%1000
+	b = putVarint(b, largest, vlen(largest))
+	delay := 1 + small(r)%5000
+	b = putVarint(b, delay, vlen(delay))
+	if largest >= 6 && r.Bool() {
+		b = append(b, 1, 1, 0, 1) // two ranges
+	} else {
+		b = append(b, 0, byte(r.Intn(2)))
+	}
+	if ecn {
+		b = append(b, byte(r.Intn(64)), byte(r.Intn(64)), byte(r.Intn(64)))
+	}
+	return b
+}
+
+// parserLife is what one connection does with its FrameParser: the peer's ack_delay_exponent is stored
+// once, then frames of all packet number spaces (late Initial / Handshake ACKs between 1-RTT ACKs, other
+// frames, rejected frames) go through the same object without the exponent being set again.
+func parserLife(r *vh.Rand) []string {
+	flags := "111"
+	if r.Chance(35) {
+		flags = fmt.Sprintf("%d%d%d", r.Intn(2), r.Intn(2), r.Intn(2))
+	}
+	ops := []string{fmt.Sprintf("setexp %s %d", flags, expOf(r))}
+	for k := 3 + r.Intn(6); k > 0; k-- {
+		lvl := []string{"I", "H", "Z", "A"}[r.Pick(20, 20, 5, 55)]
+		var b []byte
+		switch r.Pick(70, 15, 15) {
+		case 0:
+			b = ackBytes(r)
+		case 1:
+			b = ackBytes(r)
+			b = b[:r.Intn(len(b))] // an ACK that fails to parse
+		default:
+			b, _ = frameBytes(r)
+		}
+		ops = append(ops, fmt.Sprintf("dec %s %s = %s", lvl, flags, hx(b)))
+		if r.Chance(8) { // a second set of transport parameters is never applied, but the setter is public
+			ops = append(ops, fmt.Sprintf("setexp %s %d", flags, expOf(r)))
+		}
+	}
+	return ops
 }
 
 // ---------------------------------------------------------------- byte-level frames
@@ -969,6 +1034,26 @@ var detOps = func() []string {
 			"dec A " + fl + " 3 020a010000",
 		}, " ;; "))
 	}
+	// one parser per connection: the exponent is stored once, then ACKs of all packet number spaces (and a
+	// truncated one) pass through the same object; 1-RTT ACKs must keep the stored exponent
+	for _, fl := range []string{"111", "000"} {
+		var dd []string
+		for _, e := range []int{5, 0, 20, 1, 3, 255} {
+			dd = append(dd,
+				fmt.Sprintf("setexp %s %d", fl, e),
+				"dec A "+fl+" = 020a080000",
+				"dec H "+fl+" = 020a080000",
+				"dec A "+fl+" = 020a080000",
+				"dec I "+fl+" = 030a08000005060700",
+				"dec A "+fl+" = 030a08000005060700",
+				"dec H "+fl+" = 020a08",
+				"dec A "+fl+" = 020a080000",
+				"dec Z "+fl+" = 0608021122",
+				"dec A "+fl+" = 02144001010001",
+			)
+		}
+		ops = append(ops, strings.Join(dd, " ;; "))
+	}
 	// an id the implementation does not interpret, twice (adjacent, separated, equal or different values), both
 	// perspectives and session tickets; also every known id twice
 	for _, pers := range []string{"c", "s"} {
@@ -1050,7 +1135,7 @@ func (rn *runner) GenOp(r *vh.Rand, i int) string {
 			return fmt.Sprintf("vsweep2 %d", c-16-len(detOps))
 		}
 	}
-	switch r.Pick(22, 26, 14, 6, 6, 12, 8, 4, 2, 4) {
+	switch r.Pick(22, 26, 14, 6, 6, 12, 8, 4, 2, 4, 4) {
 	case 0: // structured frame -> enc (+ dec of the output)
 		return "enc " + frameText(r)
 	case 1: // valid byte-level frame -> dec (+ reenc, dec, prefix re-parse)
@@ -1351,6 +1436,14 @@ func (rn *runner) GenOp(r *vh.Rand, i int) string {
 		default:
 			return fmt.Sprintf("ssplit %d stream sid=%d off=%d fin=%d len=%d data=%s", maxSize, sid, off&(1<<61-1), r.Intn(2), r.Intn(2), rhex(r, n))
 		}
+	case 10: // the life of one FrameParser
+		if r.Chance(25) {
+			return fmt.Sprintf("setexp %s %d", strings.Fields(ctxOf(r))[1], expOf(r))
+		}
+		seq := parserLife(r)
+		rn.push(seq[1:]...)
+		rn.fromGen = false
+		return seq[0]
 	default: // tokens
 		key := rhex(r, 32)
 		if r.Chance(40) {
